@@ -34,6 +34,27 @@
 //! may carry a partial (never better than the true) min/max; all rows at or before the boundary
 //! must be exact. ResourcesExhausted under a memory limit → inconclusive.
 //!
+//! Genuine finding (open entry `grouped-topk:minmax:null-after-evicted-value` in
+//! /verif/known_findings.json, case /verif/regressions/C06/c06/, proposed repair
+//! /verif/fixes/C06-grouped-topk-phantom-null-group.diff): GroupedTopKAggregateStream registers a
+//! group as "all-NULL" when a NULL input arrives for a group that is not in the map — also when
+//! the group's earlier *value* row was rejected by / evicted from the full heap; the group is then
+//! emitted with a NULL min/max although it has a value (the code guards only the opposite arrival
+//! order, see `should_drop_null_group_that_loses_to_topk`). Low severity: NULLs rank last, a
+//! Sort(fetch=k) above never selects the phantom row. Excluded by `known_signature`
+//! (VF_C06_NO_KNOWN=1 switches the exclusion off for verifying the repair).
+//! Observation (not a C06 matter, classified inconclusive): under a memory limit the hash streams
+//! raise `Internal error: … hash aggregate ran out of memory with no aggregated groups` instead of
+//! ResourcesExhausted when even an empty table cannot be reserved.
+//!
+//! Sensitivity probes (mutrun, quick tier, both detected):
+//!   * aggregates/order/full.rs `new_groups`: `current: max_group_index` → `max_group_index + 1`
+//!     (the in-progress group is emitted early) → VIOLATION "4 rows returned, 2 groups expected
+//!     [stages Single/sorted]" after 34 cases.
+//!   * aggregates/hash_stream.rs `into_replay_stream`: the last sorted spill run is dropped before
+//!     the merge → VIOLATION "got [Null, 0] expected [Null, 1] [stages Partial/linear, Final/linear]"
+//!     after 54 cases.
+//!
 //! Deviations from DESIGN.md: SQL-level GROUPING SETS / ROLLUP / CUBE are done elsewhere (c06sql);
 //! avg only over Float64 (the planner's coercion target) — decimal avg is left to C07.
 use crate::data::*;
@@ -724,7 +745,7 @@ impl Property for C06 {
         C06::case_strategy(tier)
     }
     fn budget(&self, tier: Tier) -> Budget {
-        Budget::new(tier.pick(6_000, 150_000), tier.pick(8, 16)).min_nontrivial(tier.pick(800, 10_000)).case_timeout(180)
+        Budget::new(tier.pick(6_000, 60_000), tier.pick(8, 16)).min_nontrivial(tier.pick(800, 10_000)).case_timeout(180)
     }
     fn rule(&self) -> String {
         "table with 0-3 typed group keys (small NULL/duplicate-heavy domains), six value columns, ORDER BY / FILTER columns, partitions, batch cuts, encodings; 0-4 aggregates; plan shape × ordered input × grouped TopK × skip-partial × memory limit × batch size × migration flag; \
